@@ -26,7 +26,7 @@ CHECKS = {
         "groups": [{
             "pkg": BS, "funcs": ["VerifC13Snapshot"],
             "params": {"quick": {"T": 3, "SIZES": 0}, "thorough": {"T": 4, "SIZES": 0}},
-            "covers": {"VerifC13Snapshot": ["empty", "chain", "replicated", "saved", "loaded"]},
+            "covers": {"VerifC13Snapshot": ["empty", "chain", "replicated", "merged", "saved", "loaded"]},
         }, {
             "pkg": BS, "funcs": ["VerifC13Snapshot"],
             "cross_solvers": ["cvc5", "z3-new"], "params": {"quick": {"T": 2, "SIZES": 1048576}, "thorough": {"T": 3, "SIZES": 1048576}},
@@ -40,7 +40,7 @@ CHECKS = {
             "covers": {"VerifC13PendingQueue": ["replication-in-progress", "saved", "loaded"]},
         }],
         "assumptions": [
-            "log shapes: empty, single-writer chain of T entries, two writers with a replicated entry (so the replicator's task table is non-empty); the real SaveSnapshot, GetQueue, LoadFromSnapshot, NewFromJSON, Join run over an in-memory Unixfs and cache",
+            "log shapes: empty, single-writer chain of T entries, two writers with concurrent chains of any lengths nb + na = T, replicated (so the replicator's task table is non-empty and the heads have equal or different clock times), optionally merged by a later local write; the real SaveSnapshot, GetQueue, LoadFromSnapshot, NewFromJSON, Join run over an in-memory Unixfs and cache",
             "size clause: every encoded header / entry / queue document has a SYMBOLIC byte length in [2, 2^20]; the snapshot file is a rope of segments with symbolic lengths, length prefixes are computed by the real uint16 conversions and PutUint16/Uint16 on symbolic values; a read at a symbolic offset asks the solver whether offset and length are forced to coincide with a written segment, otherwise the bytes read are unconstrained",
             "a counterexample of the size clause is replayed natively with payloads that are really that large",
             "replication in progress with a non-empty stored queue (VerifC13PendingQueue): the replicator is stuck on a block of a remote chain when the snapshot is saved; a fresh instance loads it while the pending block (optionally every block of that chain) is unavailable; loading must return without error and hold the saved log in order, plus at most entries of the replication that was in progress",
@@ -57,7 +57,7 @@ CHECKS = {
         }, {
             "pkg": ODB, "funcs": ["VerifC18Drop"],
             "params": {"quick": {"L": 1}, "thorough": {"L": 2}},
-            "covers": {"VerifC18Drop": ["created", "dropped", "instance-closed"]},
+            "covers": {"VerifC18Drop": ["created", "dropped", "instance-closed", "sibling-under-same-root"]},
         }, {
             "pkg": BS, "funcs": ["VerifC18CloseBlockedLoad"],
             "covers": {"VerifC18CloseBlockedLoad": ["load-stuck", "closed"]},
@@ -72,7 +72,7 @@ CHECKS = {
             "a real BaseStore with replication enabled over stubs; Close is issued by a concurrent thread at ANY visible operation (lock, channel operation, goroutine start, block/cache effect) of a local write, of a replication (real Sync/replicator/fetcher/Join) or of a Load, or when idle; then Close is repeated 1..2 times; then one later operation (write, load, sync, close)",
             "leak check: at quiescence (decided from the scheduler state) no interpreter thread whose function belongs to go-orbit-db/stores is alive; a thread blocked for ever counts as alive; a main thread blocked for ever is reported as a deadlock",
             "stub contracts: the pubsub topic's watch channels are closed when their context ends; the event bus delivers under its read lock and Subscription.Close drains concurrently (as libp2p's eventbus)",
-            "Drop: a real orbitDB instance with two event logs over the real cache manager (cacheleveldown) on a disk model (one store per directory path, os.RemoveAll removes by prefix); names symbolic",
+            "Drop: a real orbitDB instance with two event logs over the real cache manager (cacheleveldown) on a disk model (one store per directory path, os.RemoveAll removes by prefix); names symbolic; the sibling is either created under its own name or opened by an address with the SAME manifest root and another (non-nested) path",
             "blocked load: a store is closed (once or twice) while a Load of it is stuck on a block no reachable peer provides and the caller's context is still live; Close must return without waiting for the load",
             "instance level (VerifSysClose): two real orbitDB instances with two databases over the simulated network; the whole instance of b (orbitDB.Close: stores, direct channel, caches, emitters) or one of its stores is closed at ANY visible operation of a cross-instance replication (head exchange on join over the direct channel, fetches, joins) or of a local write, or when idle; optionally the context the instance was created with is cancelled BEFORE Close; Close repeated; a later operation (write / load / sync / store close / open + close) returns; with the other instance closed too no thread of go-orbit-db/stores or go-orbit-db/baseorbitdb is left; a new instance on the same directory reopens both databases with every acknowledged entry (after a mid-activity close the post-close choices are explored in full only in the thorough tier)",
         ],
@@ -143,16 +143,16 @@ CHECKS = {
         "groups": [{
             "pkg": BS, "funcs": ["VerifC03Forged", "VerifC03LocalWrite"],
             "covers": {"VerifC03Forged": ["as-head", "as-ancestor", "as-foreign-ref", "id-swap"], "VerifC03LocalWrite": ["allowed", "denied"]},
-        }, {"cross_solvers": ["cvc5", "z3-new"], "pkg": ACI, "funcs": ["VerifC03CanAppend"], "covers": {"VerifC03CanAppend": ["decided"]}},
-           {"cross_solvers": ["cvc5", "z3-new"], "pkg": ACS, "funcs": ["VerifC03CanAppend"], "covers": {"VerifC03CanAppend": ["decided"]}},
-           {"pkg": ACO, "funcs": ["VerifC03CanAppend"], "covers": {"VerifC03CanAppend": ["decided"]}},
+        }, {"cross_solvers": ["cvc5", "z3-new"], "pkg": ACI, "funcs": ["VerifC03CanAppend"], "covers": {"VerifC03CanAppend": ["decided", "after-genuine"]}},
+           {"cross_solvers": ["cvc5", "z3-new"], "pkg": ACS, "funcs": ["VerifC03CanAppend"], "covers": {"VerifC03CanAppend": ["decided", "after-genuine"]}},
+           {"pkg": ACO, "funcs": ["VerifC03CanAppend"], "covers": {"VerifC03CanAppend": ["decided", "after-genuine"]}},
            {"pkg": ODB, "funcs": ["VerifC03Instance"],
             "covers": {"VerifC03Instance": ["created", "via-sync", "via-direct-channel", "via-topic", "delivered", "local-write-refused"]}}],
         "assumptions": [
             "Dolev-Yao attacker with perfect symbolic cryptography: verify(pub, m, s) <=> s = sign(pub, m); the attacker can sign only with its own key, copy any public field (ids, identity blocks, keys, signatures of honest entries) and re-address entries",
-            "forged author fields: identity block (own / own with the writer's id - with the attacker's own identity signatures, or the id re-signed with the attacker's key and the writer's or the attacker's voucher - / copy of the writer's) x key (own / writer's) x signature (own over the content / copied from an honest writer entry / garbage) x clock id; delivered as an announced head or as the ancestor of a colluding writer's entry to a replica with an explicit write list, through the real Sync, replicator, Join, Entry.Verify, ToHashable and the REAL OrbitDBIdentityProvider.VerifyIdentity",
+            "forged author fields: identity block (own / own with the writer's id - with the attacker's own identity signatures, the id re-signed with the attacker's key and the writer's or the attacker's voucher, or the writer's id signature COPIED with the attacker's or the writer's voucher - / copy of the writer's) x key (own / writer's) x signature (own over the content / copied from an honest writer entry / garbage) x clock id; delivered as an announced head or as the ancestor of a colluding writer's entry to a replica with an explicit write list, through the real Sync, replicator, Join, Entry.Verify, ToHashable and the REAL OrbitDBIdentityProvider.VerifyIdentity",
             "local write by an identity outside / inside the list, under the wildcard, and with the default (creator-only) list",
-            "unit harnesses of the three controllers' CanAppend with a symbolic write list (<= 2 ids, each any 1-byte string or the id of identity a / b, optional wildcard at any position) and an author that is genuine (a or b) or forged by b (a's id with b's key and signatures; id re-signed by b with a's voucher copied; a's block copied with b's entry key; a's block without signatures): admitted iff listed AND genuine",
+            "unit harnesses of the three controllers' CanAppend with a symbolic write list (<= 2 ids, each any 1-byte string or the id of identity a / b, optional wildcard at any position) and an author that is genuine (a or b) or forged by b (a's id with b's key and signatures; id re-signed by b with a's voucher copied; a's block copied with b's entry key; a's block without signatures; a's id and id signature copied under b's key with b's or a's voucher), decided on a fresh controller or after the controller has decided a genuine entry of a (state a controller or a process-wide cache keeps must not make a forgery acceptable): admitted iff listed AND genuine",
             "harness identities are well-formed orbitdb identities over the symbolic signature scheme (id = hex of the id key, Signatures.ID = sign(public key, id), Signatures.PublicKey = sign(id key, hex(public key ++ id signature))), so the real VerifyEntryIdentity accepts them and rejects forgeries",
             "instance harness (VerifC03Instance): one real orbitDB instance creates a permissive and a restricted database (ipfs controller with manifest / manifest-less simple controller, either creation order); the write list each store enforces is the one resolved by createStore -> acutils.Resolve from the manifest; a non-writer's entry reaches the instance by manual sync, direct-channel head exchange (monitorDirectChannel) or topic announcement; the non-writer's local write on its own replica must fail",
         ],
@@ -164,15 +164,15 @@ CHECKS = {
             "covers": {"VerifC04Tampered": ["as-head", "as-ancestor", "codec-alias"]},
         }, {
             "pkg": BS, "funcs": ["VerifC04ForeignChain"],
-            "params": {"quick": {"F": 3}, "thorough": {"F": 5}},
-            "covers": {"VerifC04ForeignChain": ["via-refs", "via-next", "restarted", "relayed"]},
+            "params": {"quick": {"F": 3, "H": 3}, "thorough": {"F": 5, "H": 4}},
+            "covers": {"VerifC04ForeignChain": ["via-refs", "via-next", "restarted", "relayed", "trimmed-load", "trimmed-load-after-restart"]},
         }],
         "assumptions": [
             "a valid entry of an authorised writer, one field of its wire form replaced (payload by a symbolic byte, clock time by ANY other 64-bit value, clock id, next, refs, key, signature, log id, only the claimed address, or the claimed address replaced by an alias with the same multihash digest and another codec), keeping the claimed address or re-addressed; delivered as an announced head or (re-addressed) as the ancestor of a valid head",
             "content addressing = perfect hash of every wire field except the hash; ancestors are fetched by hash, hence their content is whatever hashes to it; perfect symbolic signatures over the hashable form computed by the real ToHashable/toBuffer",
-            "foreign chain: a valid entry of a writer of A links (refs / next / both) to the head of a chain of 1..F entries validly written for another database; delivered as an announced head, then either nothing, or restart + Load from the replica's own disk (the whole ancestry is fetched as ONE log and filtered by ownEntriesOnly), or relayed to a fresh replica; oracle: nothing listed, no head and nothing served carries another log id",
+            "foreign chain: a valid entry of a writer of A (on top of A's own chain of 1..H entries) links (refs / next / both) to the head of a chain of 1..F entries validly written for another database; delivered as an announced head, then either nothing, or restart + Load from the replica's own disk (the whole ancestry is fetched as ONE log and filtered by ownEntriesOnly), or relayed to a fresh replica, or followed by Load(n), n in 1..3, smaller or not than what the store holds (the trimming pass of joinTrimmed), on the live store or after restart + full load; oracle: nothing listed, no head and nothing served carries another log id",
         ],
-        "outside": ["hash collisions", "CBOR canonicalisation", "mutations of the identity block only (the signature does not cover it: that is C03's known finding)"],
+        "outside": ["hash collisions", "CBOR canonicalisation", "mutations of the identity block only (the entry signature does not cover it; decided under C03)"],
     },
     "C10": {
         "groups": [{
